@@ -4,7 +4,7 @@ from h5harness import *
 
 RULE = ("fault enumeration: an unstorable value (a sequence containing None, which h5py refuses) injected at every position "
         "— each key of attrs, each key of dnplab_attrs, each parameter of each history step, each entry of a workspace "
-        "(data object or plain dictionary) — x {no previous file, previously saved file, existing non-HDF5 file (text / empty)} x {overwrite on, off}, plus the "
+        "(data object or plain dictionary) — x {no previous file, previously saved file, existing non-HDF5 file (text / empty)} x {overwrite on, off; given as keyword, positionally, or left to its default}, plus the "
         "fault-free saves, the destination named in other spellings (trailing separator, ./ and ../ segments, doubled separator), and workspace entries that are neither data objects nor dictionaries (array, list, number; first / middle / last); the destination's outcome class (absent / loads equal to the previous content / does not load / "
         "loads something else) and whether save raised are compared with the Lean model of save_h5 and checked against the "
         "property directly; non-trivial = a fault with a previous file present")
@@ -49,10 +49,16 @@ def cases(tier, seed):
     prev_ws = {"ws": [["old", {"kind": "data", "obj": rand_obj(rng, nd=1, hist=0, dtype="i8")}]]}
     out = []
     faults = [("none", o)] + fault_positions(o)
+    nform = 0
     for label, m in faults:
         for prev in (None, prev_single, prev_ws, {"other": 1}, {"other": 2}):
             for ow in (True, False):
-                out.append({"single": m, "prev": prev, "overwrite": ow, "label": "obj:" + label})
+                # the option is given as a keyword, positionally, or (for "do not overwrite") left out — in rotation, so that
+                # calls that name it and calls that rely on the default follow one another in one process
+                nform += 1
+                form = ("kw", "omitted", "positional")[nform % 3]
+                out.append(dict({"single": m, "prev": prev, "overwrite": ow, "label": "obj:" + label},
+                                **({} if form == "kw" else {"owform": form})))
     # workspace entries: fault in the k-th entry (data object or plain dict)
     for k in range(3):
         for kind in ("data", "dict"):
@@ -144,7 +150,7 @@ def run(tier, seed, escalate=False):
     mism, fails = [], []
     try:
         impl = [impl_case(c, work) for c in cs]
-        model = model_cases([{k: v for k, v in c.items() if k != "label"} for c in cs])
+        model = model_cases([{k: v for k, v in c.items() if k not in ("label", "owform", "pathform")} for c in cs])
         for c, i, m in zip(cs, impl, model):
             if m.get("outcome") != "ok":
                 mism.append({"diffs": [m.get("outcome")], "ops": [c], "stream": -1, "explained_by_known": False}); continue
@@ -199,4 +205,10 @@ def replay(rp):
         shutil.rmtree(work, ignore_errors=True)
     fl = []
     judge(c, i, fl)
+    if not fl and rp.get("key"):
+        # the case alone passes: it may need the calls that came before it in the run (state left behind by an earlier save) —
+        # run the whole enumeration again with the replay's tier and seed and look for the same clause
+        res = run(rp.get("tier", "quick"), int(rp.get("seed", 0)))
+        hit = [f for f in res["impl_failures"] if f["key"] == rp["key"]]
+        return {"fails": bool(hit), "clauses": [f["key"] for f in hit], "needs_preceding_calls": True}
     return {"fails": bool(fl), "clauses": [f["key"] for f in fl], "impl": {k: i[k] for k in ("raised", "exists", "loads")}}
